@@ -425,12 +425,12 @@ def shape_tag(case):
 def model_requests(case, obs):
     g = R.strip_width(case["g"])
     md = case.get("md") or {}
-    reqs = [{"op": "write", "g": g, "md": {"directed": md.get("directed", True), "axes": md.get("axes"),
+    reqs = [{"op": "write", "validate": bool(case.get("validate", True)), "g": g, "md": {"directed": md.get("directed", True), "axes": md.get("axes"),
                                            "node_props": md.get("node_props", []), "edge_props": md.get("edge_props", [])},
              "node_unsquish": None if case.get("node_unsquish") is None else [[k, v] for k, v in case["node_unsquish"].items()],
              "edge_unsquish": None if case.get("edge_unsquish") is None else [[k, v] for k, v in case["edge_unsquish"].items()]}]
     if obs.get("dump") is not None:
-        reqs.append({"op": "read", "store": R.strip_width(obs["dump"])})
+        reqs.append({"op": "read", "validate": bool(case.get("validate", True)), "store": R.strip_width(obs["dump"])})
     return reqs
 
 
@@ -536,14 +536,12 @@ def run(ck: common.Check):
         if "err" in mw:
             ck.corr_broken("C01:driver-write", c, ob["write"], mw)
             continue
-        # (d) outcome of the write.  Structural validation is not part of this model (C04): the cases where the
-        # real writer fails only in its final validate_structure step are recognised by the message.
+        # (d) outcome of the write, including the final validate_structure step (C04's model through the bridge
+        # GeffModel/StoreTree.lean); names zarr refuses or nests are outside the model
         m_out = mw["outcome"]
         i_out = ob["write"]
-        if i_out == "ValueError" and "Cannot write invalid geff" in ob.get("write_msg", "") and m_out == "ok":
-            i_out = "ok-but-rejected-by-validate_structure"
-            if wf:
-                ck.corr_broken("C01:writeArrays-outcome", c, ob["write"], m_out)
+        if m_out.startswith("unmodelled"):
+            ck.histogram["unmodelled:" + m_out] = ck.histogram.get("unmodelled:" + m_out, 0) + 1
             continue
         if m_out != i_out:
             ck.corr_broken("C01:writeArrays-outcome", c, {"outcome": ob["write"], "msg": ob.get("write_msg")}, m_out)
